@@ -105,6 +105,7 @@ def run(tier, seed, replay=None):
     R = Run(PROP, tier, seed)
     proof = prove(PROP, thorough=(tier == "thorough"))
     build_hooked()
+    R.check_witnesses()
     r = R.rng
     n_lines = 1500 if tier == "quick" else 40000
     n_rel = 160 if tier == "quick" else 4000
